@@ -23,7 +23,8 @@ RULE = (
     "update the sensors in sorted key order, NIS from the recorded innovation and S). Oracle 2: the reference EKF incl. the "
     "innovation gate. Checked per matrix: transform shape (n, #sensors), values >= 0 and equal to both oracles; mahalanobis "
     "= the same numbers row-major; score and its explained components = the documented combination; get_params unchanged; "
-    "repeated calls identical. One evaluation = one adapter call. distinct = (model, threshold, matrix); non-trivial = "
+    "repeated calls identical; plus parameter sequences (transform/score, set_params of a threshold / noise map / Config field, "
+    "transform/score, ...) after each of which the estimator must equal a freshly created one with the current parameters. One evaluation = one adapter call. distinct = (model, threshold, matrix); non-trivial = "
     "matrices with >= 2 rows or models with >= 2 sensors."
 )
 ASSUMPTIONS = ["finite data matrices of matching width with dyadic entries", "reference comparison tolerance 1e-9, hand-run comparison 1e-12"]
@@ -49,6 +50,9 @@ def cases(tier, seed):
             if tier == "quick" and (i + [None, 5.0, 0.5].index(k)) % 3:
                 continue
             yield {"def": d, "k": k, "seed": seed, "tier": tier}
+    # parameters changed between calls: the estimator must behave like a freshly created one with the current parameters
+    for i in (3, 7, 11):
+        yield {"kind": "param-sequence", "def": ds[i], "seed": seed, "tier": tier}
     # the 1-D input form: no control, one sensor with one reading
     yield {"def": space.bind_def(2, 0, 1, order=1, sensors_shape=(1,), tag="-1d"), "k": 5.0, "seed": seed, "one_d": True, "tier": tier}
 
@@ -98,7 +102,72 @@ def params_snapshot(est):
             "calibration_map": copy.deepcopy(p["calibration_map"]), "config": p["config"]}
 
 
+def eval_param_sequence(case):
+    """differential oracle: the state reached by a sequence of calls and set_params equals a fresh estimator"""
+    from formak import python as fpy
+    d = case["def"]
+    ref = RefEKF(d)
+    width = len(ref.ct) + sum(len(rs) for _, rs in d["sensors"])
+    alpha = alphabet(width, case["seed"])
+    outlier = [v * 4.0 for v in alpha[1]]
+    X = np.array([alpha[0], outlier, alpha[2], alpha[1]], dtype=float)
+    fails = []
+    n = 0
+
+    def fresh(params):
+        return fpy.SklearnEKFAdapter(**params)
+
+    def snapshot(est):
+        p = est.get_params()
+        return {"symbolic_model": p["symbolic_model"], "process_noise": dict(p["process_noise"]),
+                "sensor_models": p["sensor_models"], "sensor_noises": {k_: dict(v) for k_, v in p["sensor_noises"].items()},
+                "calibration_map": p["calibration_map"], "config": p["config"]}
+
+    est = fpy.SklearnEKFAdapter.Create(pyimpl.ui_model(d), pyimpl.pnoise(d), pyimpl.sensors(d), pyimpl.snoise(d), pyimpl.calmap(d),
+                                       config=pyimpl.config({"innovation_filtering": 5.0}))
+    pn2 = {k_: v * 4.0 for k_, v in pyimpl.pnoise(d).items()}
+    sn2 = {k_: {r: v / 4.0 for r, v in rs.items()} for k_, rs in pyimpl.snoise(d).items()}
+    steps = [("call", None), ("set", {"innovation_filtering": 0.5}), ("call", None), ("set", {"innovation_filtering": None}), ("call", None),
+             ("set", {"sensor_noises": sn2}), ("call", None), ("set", {"innovation_filtering": 5.0, "max_dt_sec": 0.05}), ("call", None),
+             ("set", {"process_noise": pn2}), ("call", None), ("set", {"common_subexpression_elimination": False}), ("call", None)]
+    trail = []
+    for kind, arg in steps:
+        if kind == "set":
+            est.set_params(**arg)
+            trail.append(f"set_params({', '.join(arg)})")
+            continue
+        trail.append("transform/score")
+
+        def run(e):
+            try:
+                return ("ok", e.transform(X.copy()), e.score(X.copy()))
+            except Exception as ex:  # numerical refusals (ill-conditioned regime) must at least be the same on both sides
+                return (type(ex).__name__, None, None)
+
+        try:
+            twin = fresh(snapshot(est))
+        except Exception as e:
+            fails.append({"key": f"param-sequence-raises:{type(e).__name__}", "what": f"{d['name']}: after {trail}: {type(e).__name__}: {str(e)[:200]}"})
+            break
+        (o1, T, sc), (o2, T2, sc2) = run(est), run(twin)
+        if o1 != o2:
+            fails.append({"key": "stale-state-after-set_params", "what": f"{d['name']}: after {trail} the estimator ends with {o1}, a freshly "
+                          f"created estimator with the same parameters with {o2}"})
+            break
+        if o1 != "ok":
+            continue
+        n += 2
+        if T.shape != T2.shape or not np.allclose(T, T2, rtol=1e-12, atol=0) or not pyimpl.close(sc, sc2, 1e-12, abs(sc2)):
+            fails.append({"key": "stale-state-after-set_params", "what": f"{d['name']}: after {trail} transform gives {T.tolist()} (score {sc!r}); a "
+                          f"freshly created estimator with the same parameters gives {T2.tolist()} (score {sc2!r})"})
+            break
+    return {"n": n, "fails": fails, "sigs": [f"{d['name']}:seq:{i}" for i in range(n)], "outcomes": ["param-sequence", "evaluated"],
+            "sample": {"kind": "param-sequence", "model": d["name"], "steps": [f"{k_}:{list(a) if a else ''}" for k_, a in steps]}}
+
+
 def eval_case(case):
+    if case.get("kind") == "param-sequence":
+        return eval_param_sequence(case)
     from formak import python as fpy
     d, k = case["def"], case["k"]
     ref = RefEKF(d)
@@ -186,4 +255,4 @@ def eval_case(case):
             "sample": {"model": d["name"], "k": k, "matrices": len(mats), "example": mats[len(mats) // 2]}}
 
 
-REQUIRED_OUTCOMES = ["evaluated", "controls0", "controls1", "controls2", "sensors1", "sensors2", "sensors3", "one-d-input"]
+REQUIRED_OUTCOMES = ["evaluated", "param-sequence", "controls0", "controls1", "controls2", "sensors1", "sensors2", "sensors3", "one-d-input"]
